@@ -1487,14 +1487,16 @@ func redact(s *string) {
 // This is safe to log or display to users.
 func (c *Config) Redacted() *Config {
 	// Create a deep copy by marshaling and unmarshaling
-	data, err := yaml.Marshal(c)
-	if err != nil {
-		return c
-	}
-
 	redacted := &Config{}
-	if err := yaml.Unmarshal(data, redacted); err != nil {
-		return c
+	data, err := yaml.Marshal(c)
+	if err == nil {
+		err = yaml.Unmarshal(data, redacted)
+	}
+	if err != nil {
+		// The YAML round trip can fail (yaml.v3 cannot re-read some block scalars
+		// it emits itself, e.g. a list item value starting with a newline).
+		// Never hand back the receiver: redact a structural copy instead.
+		redacted = c.copyForRedaction()
 	}
 
 	// Redact global TLS key
@@ -1528,6 +1530,16 @@ func (c *Config) Redacted() *Config {
 	redact(&redacted.Management.SigningPrivateKey)
 
 	return redacted
+}
+
+// copyForRedaction returns a copy of c in which every slice that holds
+// redactable fields is cloned, so that redacting the copy leaves c untouched.
+func (c *Config) copyForRedaction() *Config {
+	cp := *c
+	cp.Peers = append([]PeerConfig(nil), c.Peers...)
+	cp.Listeners = append([]ListenerConfig(nil), c.Listeners...)
+	cp.SOCKS5.Auth.Users = append([]SOCKS5UserConfig(nil), c.SOCKS5.Auth.Users...)
+	return &cp
 }
 
 // HasSensitiveData returns true if the config contains any sensitive data.
